@@ -76,12 +76,14 @@ def P(name, row, T, ctype, attrs="", dir="in", **kw):
     return d
 
 
-NUM_T = sorted(INT_TYPES) + sorted(FLT_TYPES)
+NUM_T_ALL = sorted(INT_TYPES) + sorted(FLT_TYPES)
+NUM_T = NUM_T_ALL
 
 
 @st.composite
-def param(draw, i, lang, for_fortran=True, allowed=None):
+def param(draw, i, lang, for_fortran=True, allowed=None, types=None):
     n = "a%d" % i
+    NUM_T = [t for t in NUM_T_ALL if types is None or t in types]
     rows = ["N1", "N1", "N2in", "N2out", "N2inout", "B1", "B1out", "B1inout", "S1in", "S1out", "N3in", "N3inout", "N3out", "S1c"]
     if lang == "c++":
         rows += ["N2ref", "N2refout", "S3in", "S3out", "S3inout", "S3val"]
@@ -136,7 +138,8 @@ def param(draw, i, lang, for_fortran=True, allowed=None):
 
 
 @st.composite
-def result(draw, lang, for_fortran=True):
+def result(draw, lang, for_fortran=True, allowed=None, types=None):
+    NUM_T = [t for t in NUM_T_ALL if types is None or t in types]
     rows = ["void", "void", "N", "N", "B", "C", "S1", "S1len"]
     if lang == "c++":
         rows += ["S3ref", "S3len"]
@@ -144,6 +147,8 @@ def result(draw, lang, for_fortran=True):
             # a std::string returned by value has no plain C wrapper (documented: only the
             # buffer variant for Fortran is created), so the C front end does not use it
             rows.append("S3")
+    if allowed is not None:
+        rows = [x for x in rows if x in allowed]
     r = draw(st.sampled_from(rows))
     if r == "void":
         return None
@@ -230,12 +235,12 @@ def call_vector(draw, f, for_fortran=True):
 
 
 @st.composite
-def function(draw, lang, fid, name, cls=None, kind="func", max_params=3, for_fortran=True, allowed=None):
+def function(draw, lang, fid, name, cls=None, kind="func", max_params=3, for_fortran=True, allowed=None, results=None, types=None):
     params = []
     nparam = draw(st.integers(0, max_params))
     for i in range(nparam):
-        params.extend(draw(param(i, lang, for_fortran, allowed)))
-    ret = draw(result(lang, for_fortran)) if kind in ("func", "method", "smethod") else None
+        params.extend(draw(param(i, lang, for_fortran, allowed, types)))
+    ret = draw(result(lang, for_fortran, results, types)) if kind in ("func", "method", "smethod") else None
     f = dict(name=name, fid=fid, cls=cls, kind=kind, params=params, ret=ret, suffix=None, const=False, calls=[])
     if kind == "method":
         f["const"] = draw(st.booleans())
@@ -245,17 +250,17 @@ def function(draw, lang, fid, name, cls=None, kind="func", max_params=3, for_for
 
 
 @st.composite
-def library(draw, lang=None, nfunc=(4, 10), for_fortran=True, with_class=None):
+def library(draw, lang=None, nfunc=(4, 10), for_fortran=True, with_class=None, rows=None, results=None, types=None):
     lang = lang or draw(st.sampled_from(["c++", "c++", "c"]))
     lib = dict(name="XLib", language=lang, funcs=[], classes=[], cheader="xlib.hpp" if lang == "c++" else "xlib.h")
     n = draw(st.integers(*nfunc))
     fid = 1
     for i in range(n):
-        lib["funcs"].append(draw(function(lang, fid, "func%d" % fid, for_fortran=for_fortran)))
+        lib["funcs"].append(draw(function(lang, fid, "func%d" % fid, for_fortran=for_fortran, allowed=rows, results=results, types=types)))
         fid += 1
     wc = (lang == "c++") and (draw(st.booleans()) if with_class is None else with_class)
     if wc:
-        lib["classes"].append(draw(klass(lang, fid, "Cls1", for_fortran)))
+        lib["classes"].append(draw(klass(lang, fid, "Cls1", for_fortran, results, types)))
     return lib
 
 
@@ -263,7 +268,7 @@ SIMPLE_ROWS = ["N1", "B1", "S1in", "S3in", "N2out", "N2in"]
 
 
 @st.composite
-def klass(draw, lang, fid, name, for_fortran=True):
+def klass(draw, lang, fid, name, for_fortran=True, results=None, types=None):
     """classes.rst: constructors (overloaded), destructor, const / static methods, functions
     returning the class by pointer (+owner) and taking it by pointer / reference."""
     c = dict(name=name, ctors=[], methods=[], statics=[], makers=[], users=[], dtor_fid=None)
@@ -281,12 +286,12 @@ def klass(draw, lang, fid, name, for_fortran=True):
     fid += 1
     for i in range(draw(st.integers(1, 3))):
         f = draw(function(lang, fid, "method%d" % i, cls=name, kind="method", max_params=2, for_fortran=for_fortran,
-                          allowed=SIMPLE_ROWS))
+                          allowed=SIMPLE_ROWS, results=results, types=types))
         c["methods"].append(f)
         fid += 1
     if draw(st.booleans()):
         f = draw(function(lang, fid, "smethod", cls=name, kind="smethod", max_params=2, for_fortran=for_fortran,
-                          allowed=["N1", "B1"]))
+                          allowed=["N1", "B1"], results=results, types=types))
         c["statics"].append(f)
         fid += 1
     # Class1 *make(int flag) +owner(caller) ; Class1 *borrow() (library owned)
